@@ -67,6 +67,39 @@ def run_row(row):
             nav(label, lambda r_=r_: b.navigate(r_).to_text(), target)
     if b.to_text() != before or URL(base).to_text() != before:
         bad.append(("base-modified", b.to_text(), before))
+    # ... nor by what is done to the result afterwards (the result shares nothing with the base)
+    try:
+        r_ = b.navigate(ref)
+        r_.query_params.add("zz", "1")
+        r_.query_params["q"] = "changed"
+        r_.path_parts = tuple(r_.path_parts) + ("more",)
+        r_.fragment, r_.username = "elsewhere", "someone"
+        if b.to_text() != before:
+            bad.append(("base-modified-through-result", b.to_text(), before))
+    except Exception as ex:
+        bad.append(("base-modified-through-result", "raised:" + core.exc_name(ex), before))
+    # a long-lived base object: it has already served a navigation as another URL, then every component was re-assigned
+    # (path through path_parts or through .path) - whatever it remembers from before must not show
+    for how in ("path_parts", "path"):
+        try:
+            pb = URL(base)
+            lived = URL("http://elsewhere.example:81/x/y/z?old=1#frag")
+            lived.navigate("p/q")
+            lived.navigate("../r")
+            lived.scheme, lived.host, lived.port = pb.scheme, pb.host, pb.port
+            lived.username, lived.password, lived.fragment = pb.username, pb.password, pb.fragment
+            if how == "path_parts":
+                lived.path_parts = pb.path_parts
+            else:
+                lived.path = pb.path
+            lived.query_params.clear()
+            for k_, v_ in pb.query_params.items(multi=True):
+                lived.query_params.add(k_, v_)
+            lived.family = pb.family
+        except Exception:
+            continue
+        if lived.to_text() == before:
+            nav("navigate(reassigned-base/%s)" % how, lambda lived=lived: lived.navigate(ref).to_text(), target)
     # the same absolute base URL as an object built another way (unrooted path_parts via from_parts, path assigned as text):
     # taken only when it renders to the very same base text
     if len(b.path_parts) > 1 and b.path_parts[0] == "":
